@@ -57,6 +57,27 @@ protected:
             socket->write(piece);
             return;
         }
+        if (socket->rawPath() == "/chainbig") {
+            // more than 2^31 body bytes, written piece by piece as the announcements come in; the sum of the announcements
+            // is reported through the log when the last one arrives
+            struct St { int sent = 1; qint64 announced = 0; bool negative = false; };
+            St *st = new St;
+            static const QByteArray piece(32 * 1024 * 1024, 'g');
+            const qint64 total = 65LL * piece.size();
+            QStringList *o = obs;
+            QObject::connect(socket, &Socket::bytesWritten, [socket, st, total, o](qint64 n) {
+                if (n < 0) st->negative = true;
+                st->announced += n;
+                if (st->sent < 65 && st->announced >= qint64(st->sent - 1) * piece.size()) { ++st->sent; socket->write(piece); }
+                else if (st->sent == 65 && st->announced >= total) {
+                    o->append(QString("x:51:%1").arg(!st->negative && st->announced == total ? "01" : "00"));
+                    socket->close();
+                }
+            });
+            QObject::connect(socket, &QObject::destroyed, [st]() { delete st; });
+            socket->write(piece);
+            return;
+        }
         if (socket->rawPath() == "/mid") {
             QByteArray piece(1024 * 1024, 'm');
             for (int i = 0; i < 24; ++i) socket->write(piece);
@@ -182,6 +203,37 @@ void runTls(const Scn &scn, Out &out)
         out.obs << "end";
         alarm(0);
         QStringList sink; h.obs = &sink;
+        delete srv;
+        pump(100);
+        return;
+    }
+    if (scn.toks.contains("chainbig")) {
+        // as `chain`, with more than 2^31 body bytes in all
+        alarm(170);
+        LogHandler h(obs);
+        Server *srv = new Server(&h);
+        srv->listen(QHostAddress::LocalHost, 0);
+        QTcpSocket c;
+        c.connectToHost(QHostAddress::LocalHost, srv->serverPort());
+        c.waitForConnected(1000);
+        c.write("GET /chainbig HTTP/1.1\r\n\r\n"); c.flush();
+        qint64 total = 0;
+        int idleRounds = 0;
+        QElapsedTimer t; t.start();
+        while (idleRounds < 200 && t.elapsed() < 150000) {
+            QCoreApplication::processEvents(QEventLoop::AllEvents, 5);
+            qint64 n = c.readAll().size();
+            total += n;
+            idleRounds = n ? 0 : idleRounds + 1;
+            if (!n) QThread::msleep(2);
+            if (!n && c.state() == QAbstractSocket::UnconnectedState) break;
+        }
+        bool ok = obs->contains("x:51:01") && total > 65LL * 32 * 1024 * 1024;
+        *obs << QString("x:50:%1").arg(ok ? "01" : "00");
+        out.obs << "end";
+        alarm(0);
+        QStringList sink; h.obs = &sink;
+        c.abort();
         delete srv;
         pump(100);
         return;
